@@ -508,7 +508,17 @@ func (env *Env) elabQuant(q *EQuant) Val {
 	}
 	g := and(guards...)
 	if q.Forall {
-		return Val{T: types.Typ[types.Bool], S: fmt.Sprintf("(forall (%s) %s)", strings.Join(binders, " "), implies(g, b.S))}
+		body := implies(g, b.S)
+		if len(q.Vars) == 1 {
+			if pats := quantPatterns(b.S, "q!"+q.Vars[0]); len(pats) > 0 {
+				var ps []string
+				for _, p := range pats {
+					ps = append(ps, ":pattern ("+p+")")
+				}
+				return Val{T: types.Typ[types.Bool], S: fmt.Sprintf("(forall (%s) (! %s %s))", strings.Join(binders, " "), body, strings.Join(ps, " "))}
+			}
+		}
+		return Val{T: types.Typ[types.Bool], S: fmt.Sprintf("(forall (%s) %s)", strings.Join(binders, " "), body)}
 	}
 	return Val{T: types.Typ[types.Bool], S: fmt.Sprintf("(exists (%s) %s)", strings.Join(binders, " "), and(g, b.S))}
 }
